@@ -13,8 +13,8 @@ func (p *Program) extraCoverage(prop string) map[string]interface{} {
 	out := map[string]interface{}{}
 	if prop == "C17" && p.bounded != nil {
 		out["bounded_parts"] = []interface{}{map[string]interface{}{
-			"what":   "html/template.Execute inside updateWordlist (no contract within reach): BOUNDED run of the real tool, never counted as proved",
-			"stats":  p.bounded,
+			"what":  "html/template.Execute inside updateWordlist (no contract within reach): BOUNDED run of the real tool, never counted as proved",
+			"stats": p.bounded,
 		}}
 	}
 	if p.audits != nil {
@@ -43,4 +43,3 @@ func (p *Program) extraCoverage(prop string) map[string]interface{} {
 	}
 	return out
 }
-
